@@ -42,8 +42,19 @@ func (w *world) apply(req *request, d *delivery) {
 		s, _ := st(0)
 		switch s {
 		case nfsv4.NFS4_OK:
+			if c.deadIDs[req.clID] {
+				// A copy of an older SETCLIENTID_CONFIRM that was evaluated
+				// before the record it confirmed was replaced (it was still
+				// closing the files of the record it had replaced itself)
+				// and whose reply arrives only now: the server removes a
+				// confirmed record when a newer one is confirmed, so this
+				// reply says nothing about the present.
+				w.k.Probe("late-reply-of-confirm-for-replaced-record")
+				return
+			}
 			if !c.registered || c.id != req.clID {
 				if c.registered {
+					c.markDead(c.id)
 					w.k.Probe("reregistration-replaces-client-record")
 					if w.clientHoldsOpens(c) {
 						w.k.Probe("reregistration-with-open-files")
@@ -86,7 +97,12 @@ func (w *world) apply(req *request, d *delivery) {
 		}
 	case kDestroyClientID:
 		s, _ := st(0)
-		if s == nfsv4.NFS4_OK {
+		if s == nfsv4.NFS4_OK && (!c.registered || c.id != req.clID) {
+			// Late reply of a copy that was evaluated before the client
+			// registered anew.
+			w.k.Probe("late-reply-of-destroy-clientid")
+		} else if s == nfsv4.NFS4_OK {
+			c.markDead(c.id)
 			if w.clientHoldsOpens(c) {
 				w.violate("client-destroyed-with-state", fmt.Sprintf("%s request#%d: DESTROY_CLIENTID succeeded although the client still has open state", c.name, req.id))
 			}
@@ -357,6 +373,7 @@ func (w *world) clientUnknown(req *request, d *delivery, what string) {
 		return
 	}
 	w.k.Probe("client-found-expired")
+	c.markDead(c.id)
 	c.dropState()
 	c.registered, c.hasPend, c.sess = false, false, nil
 }
